@@ -484,10 +484,14 @@ func (vr *variableResolver) resolve(ctx *ExecutionContext) (*Value, error) {
 						}
 					}
 
-					if pv.IsNil() {
-						// Workaround to present an interface nil as reflect.Value
-						var empty any = nil
-						parameters = append(parameters, reflect.ValueOf(&empty).Elem())
+					if argType := reflect.TypeOf(pv.Interface()); fnArg.Kind() == reflect.Interface && argType != nil && !argType.Implements(fnArg) {
+						return nil, fmt.Errorf("function input argument %d of '%s' must implement %s (%T does not)",
+							idx, vr.String(), fnArg.String(), pv.Interface())
+					}
+
+					if pv.Interface() == nil {
+						// Present a nil as the zero value of the (interface) argument type
+						parameters = append(parameters, reflect.Zero(fnArg))
 					} else {
 						parameters = append(parameters, reflect.ValueOf(pv.Interface()))
 					}
